@@ -44,7 +44,8 @@ import (
 type Job struct {
 	Mode     string          `json:"mode"` // run | dump | seed
 	DataDir  string          `json:"datadir"`
-	Services []string        `json:"services"` // of: ssh ssh-auth ftp smtp ldap agent
+	Services []string        `json:"services"`         // instance names, see svcDefs (+ "agent")
+	OpKey    string          `json:"op_key,omitempty"` // PEM private key for the private-key option of ssh-authk
 	Seed     map[string]hx.B `json:"seed,omitempty"`
 	Out      string          `json:"out"`
 	Ready    string          `json:"ready,omitempty"` // touched right before server.New (kill timing)
@@ -67,7 +68,7 @@ type ChildObs struct {
 	TokenFile *hx.B              `json:"token_file"` // nil: absent
 	TmpFiles  map[string]hx.B    `json:"tmp_files,omitempty"`
 	KV        map[string]ItemObs `json:"kv"`
-	Seen      map[string]hx.B    `json:"seen"` // client-visible identity per item (digest)
+	Seen      map[string]hx.B    `json:"seen"` // identity PRESENTED to a client, per configured service instance (digest)
 	Errs      []string           `json:"errs,omitempty"`
 }
 
@@ -121,16 +122,23 @@ func init() {
 	})
 }
 
-// svcPort: configured service name -> (type, port)
+// svcDefs: configured service instance -> type, port, kind of probe, whether the
+// instance carries the private-key option (the only documented option touching identity)
 var svcDefs = map[string]struct {
-	Type string
-	Port int
+	Type  string
+	Port  int
+	Probe string
+	OpKey bool
 }{
-	"ssh": {"ssh-simulator", 22}, "ssh-auth": {"ssh-auth", 22},
-	"ftp": {"ftp", 21}, "smtp": {"smtp", 25}, "ldap": {"ldap", 389},
+	"ssh": {"ssh-simulator", 22, "ssh", false}, "ssh-auth": {"ssh-auth", 2222, "ssh", false},
+	"ssh-authk": {"ssh-auth", 2223, "ssh", true}, "ssh-jail": {"ssh-jail", 2224, "ssh", false},
+	"ssh-proxy": {"ssh-proxy", 2225, "ssh", false}, "ssh2": {"ssh-simulator", 2226, "ssh", false},
+	"ftp": {"ftp", 21, "ftp", false}, "ftp2": {"ftp", 2121, "ftp", false},
+	"smtp": {"smtp", 25, "smtp", false}, "smtp2": {"smtp", 2525, "smtp", false},
+	"ldap": {"ldap", 389, "ldap", false}, "ldap2": {"ldap", 3389, "ldap", false},
 }
 
-func childToml(svcs []string) string {
+func childToml(svcs []string, opKey string) string {
 	var sb strings.Builder
 	sb.WriteString("[listener]\ntype=\"c18-rec\"\n\n[channel.cap]\ntype=\"c18-cap\"\n\n[[filter]]\nchannel=[\"cap\"]\n\n")
 	for _, s := range svcs {
@@ -138,7 +146,11 @@ func childToml(svcs []string) string {
 		if !ok {
 			continue
 		}
-		fmt.Fprintf(&sb, "[service.%s]\ntype=%q\n\n[[port]]\nport=\"tcp/%d\"\nservices=[%q]\n\n", s, d.Type, d.Port, s)
+		fmt.Fprintf(&sb, "[service.%s]\ntype=%q\n", s, d.Type)
+		if d.OpKey {
+			fmt.Fprintf(&sb, "private-key=%s%s%s\n", "'''", opKey, "'''")
+		}
+		fmt.Fprintf(&sb, "\n[[port]]\nport=\"tcp/%d\"\nservices=[%q]\n\n", d.Port, s)
 	}
 	return sb.String()
 }
@@ -203,8 +215,8 @@ func tlsLeaf(c net.Conn) ([]byte, error) {
 	return st.PeerCertificates[0].Raw, nil
 }
 
-func probeSSH() ([]byte, error) {
-	cc, err := connect(22)
+func probeSSH(port int) ([]byte, error) {
+	cc, err := connect(port)
 	if err != nil {
 		return nil, err
 	}
@@ -225,8 +237,8 @@ func probeSSH() ([]byte, error) {
 	return seen, nil
 }
 
-func probeFTP() ([]byte, error) {
-	cc, err := connect(21)
+func probeFTP(port int) ([]byte, error) {
+	cc, err := connect(port)
 	if err != nil {
 		return nil, err
 	}
@@ -242,8 +254,8 @@ func probeFTP() ([]byte, error) {
 	return tlsLeaf(cc)
 }
 
-func probeSMTP() ([]byte, error) {
-	cc, err := connect(25)
+func probeSMTP(port int) ([]byte, error) {
+	cc, err := connect(port)
 	if err != nil {
 		return nil, err
 	}
@@ -266,8 +278,8 @@ func probeSMTP() ([]byte, error) {
 var ldapStartTLS = []byte{0x30, 0x1d, 0x02, 0x01, 0x01, 0x77, 0x18, 0x80, 0x16,
 	'1', '.', '3', '.', '6', '.', '1', '.', '4', '.', '1', '.', '1', '4', '6', '6', '.', '2', '0', '0', '3', '7'}
 
-func probeLDAP() ([]byte, error) {
-	cc, err := connect(389)
+func probeLDAP(port int) ([]byte, error) {
+	cc, err := connect(port)
 	if err != nil {
 		return nil, err
 	}
@@ -480,7 +492,7 @@ func childMain(jobPath string) {
 	// ---- one start ----
 	config.Default = config.Config{}
 	tp := jobPath + ".toml"
-	if err := os.WriteFile(tp, []byte(childToml(job.Services)), 0o644); err != nil {
+	if err := os.WriteFile(tp, []byte(childToml(job.Services, job.OpKey)), 0o644); err != nil {
 		os.Exit(4)
 	}
 	optC, err := server.WithConfig(tp)
@@ -523,25 +535,28 @@ func childMain(jobPath string) {
 		}
 		ob.Seen[item] = dig(v)
 	}
-	if enabled["ssh"] || enabled["ssh-auth"] {
-		v, err := probeSSH()
-		note("ssh.private-key", v, err)
-	}
-	if enabled["ftp"] {
-		v, err := probeFTP()
-		note("ftp.pemcert", v, err)
-	}
-	if enabled["smtp"] {
-		v, err := probeSMTP()
-		note("smtp.pemcert", v, err)
-	}
-	if enabled["ldap"] {
-		v, err := probeLDAP()
-		note("ldap.pemcert", v, err)
+	for _, name := range job.Services {
+		d, ok := svcDefs[name]
+		if !ok {
+			continue
+		}
+		var v []byte
+		var err error
+		switch d.Probe {
+		case "ssh":
+			v, err = probeSSH(d.Port)
+		case "ftp":
+			v, err = probeFTP(d.Port)
+		case "smtp":
+			v, err = probeSMTP(d.Port)
+		case "ldap":
+			v, err = probeLDAP(d.Port)
+		}
+		note(name, v, err)
 	}
 	if enabled["agent"] {
 		v, err := probeAgent()
-		note("agent.key", v, err)
+		note("agent", v, err)
 	}
 	// the token as stamped on an event that reaches a configured channel
 	theL.bus.Send(event.New(event.Sensor("c18"), event.Category("c18-probe")))
